@@ -100,6 +100,17 @@ def _reference_mpq_seeds(scratch, seed):
                 arc, _ = refmpq.write_archive(files, version=version, shift=0, prefix=prefix, user_data=user_data, deleted_probes=3 if k % 2 else 0, listfile=True)
                 with open(os.path.join(d, "ref-v%d-p%x-m%02x-%d.mpq" % (version, prefix, method, k)), "wb") as f:
                     f.write(arc)
+                if user_data and method == 0x02:
+                    # the user-data header's two fields at their boundary values, alone and together (after C05-r7m1): the
+                    # mutation plan changes one field at a time, pairs are reached from seeds that already carry one of them
+                    for tag, size, ptr in (("ud0", 0, None), ("udstale", None, 0x200), ("ud0stale", 0, 0x200), ("ud0self", 0, 0), ("udbig-stale", 0xFFFFFFF0, 0x600)):
+                        v = bytearray(arc)
+                        if size is not None:
+                            v[4:8] = struct.pack("<I", size)
+                        if ptr is not None:
+                            v[8:12] = struct.pack("<I", ptr)
+                        with open(os.path.join(d, "ref-v%d-p%x-m%02x-%d-%s.mpq" % (version, prefix, method, k, tag)), "wb") as f:
+                            f.write(v)
                 k += 1
     return d
 
